@@ -216,9 +216,19 @@ func cmdCheck(args []string) int {
 					p := filepath.Join(replayDir, fmt.Sprintf("%s-witness-%d.json", name, wi))
 					writeReplay(p, id, name, g, "witness", "", w)
 					out, st := nat.run(name, p)
+					usesUF := false
+					for k := range hs.Stubs {
+						if strings.Contains(k, "crc32") || strings.Contains(k, "murmur3") {
+							usesUF = true
+						}
+					}
 					if st == "ok" {
 						hs.NativeOK++
 						nativeValidated++
+						os.Remove(p)
+					} else if st == "assumefail" && usesUF {
+						// the model fixed a value of an uninterpreted function (crc/hash) that the real function
+						// does not take for these inputs: the sample says nothing; skipped, not counted
 						os.Remove(p)
 					} else {
 						hs.NativeBad = append(hs.NativeBad, fmt.Sprintf("witness %d: native outcome %s: %s", wi, st, lastLines(out, 3)))
@@ -226,7 +236,18 @@ func cmdCheck(args []string) int {
 				}
 			}
 			hs.Witnesses = nil
+			distinct := map[string]int{}
+			reproducedKey := map[string]bool{}
 			for vi, v := range hs.Violations {
+				dk := v.Site + "|" + v.Msg
+				distinct[dk]++
+				if distinct[dk] > 2 {
+					// more instances of an already replayed (site, message): counted if that one reproduced, not replayed again
+					if reproducedKey[dk] && matchKnown(known.Findings, id, name, v) == nil {
+						violations++
+					}
+					continue
+				}
 				p := filepath.Join(replayDir, fmt.Sprintf("%s-%d.json", name, vi))
 				writeReplay(p, id, name, g, v.Kind, v.Msg, v.Inputs)
 				confirmed := "symbolic-only"
@@ -246,6 +267,7 @@ func cmdCheck(args []string) int {
 				if confirmed != "reproduced" && confirmed != "symbolic-only" {
 					continue
 				}
+				reproducedKey[dk] = true
 				if kf := matchKnown(known.Findings, id, name, v); kf != nil {
 					key := kf.Harness + "|" + kf.Msg + "|" + kf.Site + "|" + kf.Tag
 					if !knownHits[key] {
